@@ -355,6 +355,18 @@ def cases_mean_sum(rng, tier):
             if rng.random() < 0.3 and n % 2 == 0:
                 kw = {k: (v.reshape(2, -1) if isinstance(v, torch.Tensor) else v) for k, v in kw.items()}
             yield fn, kw, (kind, n)
+        # values held in an INTEGER tensor (counts, lengths) with fractional weights: the weights must not take the
+        # dtype of the values anywhere on the way
+        for idt in (torch.int64, torch.int32):
+            for _ in range(6 if tier == "quick" else 40):
+                n = rng.choice([3, 8, 33])
+                kw = {"input": torch.tensor([rng.randint(-9, 9) for _ in range(n)], dtype=idt)}
+                r = rng.random()
+                if r < 0.6:
+                    kw["weight"] = T([rng.choice([Fr(1, 4), Fr(1, 2), Fr(3, 4), Fr(3, 2), Fr(5, 2)]) for _ in range(n)], dt)
+                elif r < 0.8:
+                    kw["weight"] = float(rng.choice([Fr(1, 4), Fr(1, 2), Fr(3, 2)]))
+                yield rng.choice(["mean", "sum"]), kw, ("int-input", n)
         # rejected / degenerate
         yield "mean", {"input": T([1, 2, 3], dt), "weight": T([1, 2], dt)}, ("err",)
         yield "sum", {"input": T([1, 2, 3], dt), "weight": T([1, 2], dt)}, ("err",)
